@@ -113,6 +113,16 @@ def main():
             shutil.copyfile(os.path.join(d, f), os.path.join(dst, f + (".txt" if f.endswith(".go") else "")))
     meta["ran"] = ["git apply patch.diff in a scratch worktree", "go build ./...", "go test ./... (existing suite)", "demo with and without the patch",
                    "VERIF_REPO=<worktree> bin/check " + ",".join(checks)]
+    old = os.path.join(dst, "meta.json")
+    if os.path.exists(old):
+        try:
+            prev = json.load(open(old)).get("detected_by", {})
+            for c, v in prev.items():
+                if c not in meta["detected_by"]:
+                    v["from_earlier_trial"] = True
+                    meta["detected_by"][c] = v
+        except Exception:
+            pass
     json.dump(meta, open(os.path.join(dst, "meta.json"), "w"), indent=1)
 
 
